@@ -249,7 +249,7 @@ func (w *JWorld) Change(c *simrt.Chooser, doc *JDoc) (J, string) {
 	text := w.NextVersion(c, doc)
 	var changes []J
 	how := ""
-	switch c.Choose("change-how", 3) {
+	switch c.Choose("change-how", 4) {
 	case 0:
 		changes = []J{{"text": text}}
 		how = "range-less"
@@ -261,6 +261,13 @@ func (w *JWorld) Change(c *simrt.Chooser, doc *JDoc) (J, string) {
 		n := strings.Count(old, "\n")
 		changes = []J{{"range": rng(0, 1, n, 0), "text": ""}, {"range": rng(0, 0, 0, 1), "text": text}}
 		how = "delete all but first character, then replace it"
+	case 3:
+		// an insertion with the explicit empty range 0:0-0:0 (typing at the very
+		// start of the document) must not be taken for a full replacement
+		n := strings.Count(old, "\n")
+		cut := strings.Index(text, "\n") + 1
+		changes = []J{{"range": rng(0, 0, n, 0), "text": text[cut:]}, {"range": rng(0, 0, 0, 0), "text": text[:cut]}}
+		how = "replace all by the text without its first line, then insert that line at 0:0-0:0"
 	}
 	return J{"textDocument": J{"uri": doc.URI, "version": doc.LSPVer}, "contentChanges": changes}, how
 }
